@@ -22,7 +22,10 @@ def run_property(prop, tier, seed, repo=None):
         ctx.unit('modules_parsed', len(prog.mods))
         ctx.unit('functions_in_model', len(prog.funcs))
         ctx.unit('classes_in_model', len(prog.classes))
-        mod.run(ctx, prog)
+        try:
+            mod.run(ctx, prog)
+        finally:
+            _hidden_state(ctx, prog, prop)
     except model.AnalysisError as e:
         ctx.undecided(f'{prop}-anchor', 'checker', f'cannot decide: {e}')
     except Exception as e:   # a crash of the checker is an analysis error, never a violation
@@ -31,6 +34,26 @@ def run_property(prop, tier, seed, repo=None):
         if os.environ.get('VERIF_DEBUG'):
             traceback.print_exc()
     return ctx
+
+
+def _hidden_state(ctx, prog, prop):
+    """E16: the modules the property is anchored in keep nothing between calls in module-level variables (sa.memo)"""
+    from . import memo
+    files = []
+    for line in open(os.path.join(report.VERIF, 'properties.jsonl')):
+        d = json.loads(line)
+        if d.get('id') == prop:
+            files = d.get('anchors', {}).get('files', [])
+    mods = [f[:-3].replace('/', '.') for f in files if f.endswith('.py')]
+    mods = [m[:-len('.__init__')] if m.endswith('.__init__') else m for m in mods]
+    missing = [m for m in mods if m not in prog.mods]
+    clause = f'{prop}-S1'
+    ctx.rule(clause, 'history independence: no function of the anchored modules keeps a value between calls in a module-level variable, unless it is looked up by a value snapshot '
+                     'of everything it was computed from (identity keys, kept references to the caller\'s arrays, order-forgetting keys of class lists and views of kept arrays handed out are violations)')
+    for m in missing:
+        ctx.undecided(clause, f'{m}::anchor module', 'anchored module not found in the model')
+    n = memo.hidden_state(ctx, prog, clause, mods, order_relevant=memo.ORDER_RELEVANT)
+    ctx.floor('functions scanned for hidden state', n, 3)
 
 
 def main(argv=None):
